@@ -28,12 +28,31 @@ def scenarios(rng, tier):
     s.start('band_count'); s.op('mk 0'); s.op('band_init 0')
     for i in range(25): s.op('band_hello 0')
     s.op('band_update 0'); s.op('band_choose 0'); s.op('band_do_hello 0')
+    # "after enumeration has begun": by the responder's own first Hello, or by load - GAMMA Hellos heard in one block; exactly
+    # GAMMA-1, GAMMA, GAMMA+1 heard while it has not begun, then the block ends
+    for nh in (8, 9, 10, 11, 12, 20):
+        s.start('load_%d' % nh); s.op('mk 0'); s.op('adv', 4000); s.op('band_init 0')
+        for i in range(nh): s.op('band_hello 0')
+        s.op('band_update 0'); s.op('band_choose 0')
+    # two mappers: the second one's Discover arrives right after the first one's session completed (Wait -> Pausing again)
+    for k in range(10 if tier == 'quick' else 300):
+        s.start('twomap_%d' % k); s.op('mk 0'); s.op('adv', 1000 + rng.randrange(4000)); A, Bm = mac(1), mac(2); own = bytes([2, 0, 0, 0, 0, 0x10])
+        s.flow(0, discover(A, gen=1, seq=1, stations=[mac(9)]))
+        for i in range(rng.choice([3, 5, 12])): s.op('adv', 100); s.op('tick 0')
+        s.flow(0, discover(A, gen=1, seq=2, stations=[own]))
+        if rng.random() < 0.3: s.op('adv', 100); s.op('tick 0')
+        s.flow(0, discover(Bm, gen=1, seq=1, stations=[mac(9)]))
+        for i in range(40):
+            s.op('adv', rng.choice([100, 100, 50]))
+            if rng.random() < 0.4:
+                for j in range(rng.choice([1, 3, 8])): s.flow(0, hello(mac(30 + j), gen=1))
+            s.op('tick 0')
     # the same at the end of enumeration blocks as the periodic tick reaches them (block time 300 ms, ticks every 100 ms,
     # Hello deadline and block deadline falling into the same tick or not, bursts of Hellos heard in some blocks)
     for k in range(40 if tier == 'quick' else 2000):
         s.start('tick_%d' % k); s.op('mk 0'); s.op('adv', 1000 + rng.randrange(5000))
         s.op('st_add 0', hx(mac(1)), 1, 1); s.op('ss_enum 0 3'); s.op('band_init 0'); s.op('band_choose 0')
-        step = rng.choice([100, 100, 50, 150, 300])
+        step = rng.choice([100, 100, 50, 150, 300, 400, 700, 1100])
         for i in range(rng.choice([30, 60])):
             s.op('adv', step)
             if rng.random() < 0.35:
@@ -42,7 +61,7 @@ def scenarios(rng, tier):
             s.op('tick 0')
     return [(s.text(), {})]
 def oracle(name, ib, mb, meta):
-    fails = []; now = 0; pre = None
+    fails = []; now = 0; pre = None; heard = 0
     F = V.facts(); NMAX, ALPHA, BETA, TXC, GAMMA, MULF = F.get('BAND_NMAX', 10000), F.get('BAND_ALPHA', 45), F.get('BAND_BETA', 2), F.get('BAND_TXC', 4), F.get('BAND_GAMMA', 10), F.get('BAND_MUL_FRAME_1', 6)
     NMAXd, ALPHAd = 10000, 45          # the documented constants of the property
     for i, b in enumerate(ib):
@@ -57,6 +76,14 @@ def oracle(name, ib, mb, meta):
                 hts = int(b.kv.get('hts', 0))
                 if hts and hts < now + max(interval, 6):
                     fails.append((i, 'block ended with r=%d (count %d) at %d ms: next Hello scheduled at %d ms, the load formula allows it no sooner than %d ms' % (r, ni, now, hts, now + max(interval, 6))))
+        if b.op.startswith(('band_init', 'mk')): heard = 0
+        elif b.op.startswith('band_update'): heard = 0
+        elif b.op.startswith('band_hello') and 'begun' in b.kv:
+            heard += 1
+            if heard >= 10 and b.kv['begun'] != '1':
+                fails.append((i, '%d Hellos heard in one block (GAMMA = 10) and enumeration is still not marked as begun: the count of this block will not enter the repetition count' % heard))
+        if b.op.startswith(('tick', 'flow')) and b.kv.get('enum', '').startswith('1') and b.kv.get('bts') == '0' and b.kv.get('hts') not in (None, '0'):
+            fails.append((i, 'enumerating (Hellos are being scheduled) but no block deadline is armed: the block never ends and the repetition count never follows the load'))
         if any(k in b.kv for k in ('r', 'bts')): pre = b.kv
     return fails
 def project(blk, name, meta):
